@@ -14,11 +14,65 @@ ASSUMPTIONS = ['life-cycle hooks and listeners do not raise', 'an in-flight step
 CANCEL_TEXT = 'Killed by future being cancelled'
 
 
+_RESTORED = []
+
+
+def restored_cancel_probe():
+    """Implementation-only probe (no model term; the model has no checkpoints), once per run: cancelling the future of a process
+    RESTORED from a checkpoint kills it like kill() — inside its waiting step, and before it has been stepped at all."""
+    if _RESTORED:
+        return _RESTORED[0]
+    import plumpy
+    import scripted
+    import sched
+    out = []
+    case = {'prog': {'run': life.script([], ('wait', 's1', 'w', None)), 's1': life.script([], ('value', 1))}, 'events': []}
+    for stepped_before_cancel in (True, False):
+        sc = sched.Sched()
+        sc2 = None
+        try:
+            scripted.CURRENT.update(cfg=case, trace=[], actions=[])
+            proc = scripted.ScriptedProcess(loop=sc.loop)
+            sc.loop.create_task(proc.step_until_terminated())
+            for _ in range(10):
+                if not sc.tick():
+                    break
+            b = plumpy.Bundle(proc)
+            sc2 = sched.Sched()
+            scripted.CURRENT.update(cfg=case, trace=[], actions=[])
+            p2 = b.unbundle(plumpy.LoadSaveContext(loop=sc2.loop))
+            sc2.loop.create_task(p2.step_until_terminated())
+            if stepped_before_cancel:
+                for _ in range(10):
+                    if not sc2.tick():
+                        break
+            state_before = p2.state.value
+            p2.future().cancel()
+            for _ in range(20):
+                if not sc2.tick():
+                    break
+            out.append([stepped_before_cancel, state_before, p2.state.value])
+        except Exception as e:  # noqa: BLE001
+            out.append([stepped_before_cancel, 'probe-error', repr(e)[:200]])
+        finally:
+            sc.close()
+            if sc2 is not None:
+                sc2.close()
+    _RESTORED.append(out)
+    return out
+
+
 def run_impl(case):
-    return life.strip_obs(life.run_case(case))
+    obs = life.strip_obs(life.run_case(case))
+    obs['restored_cancel'] = restored_cancel_probe()
+    return obs
 
 
 def _oracle(case, obs):
+    for stepped, before, after in obs.get('restored_cancel', []):
+        if after != 'killed':
+            return {'signature': 'cancelling_the_future_of_a_restored_process_does_not_kill_it', 'kind': '%s -> %s' % (before, after),
+                    'stepped_before_cancel': stepped}
     if obs['final'] is None:
         return None
     tr = obs['trace']
